@@ -11,6 +11,7 @@ through the real ClientSession over the real StreamableClientTransport.
   posts                                        obs n=<POSTs of the message> tok=<0/1 per POST> auth=<Authorize calls>
   end                                          obs result | done | err:<kind> | hang
   probe                                        obs ok | err | skipped
+  close                                        obs delete=<DELETE requests made by Close>
 
 The opening of the standalone stream (connectStandaloneSSE; model `ClientWrite.openStandalone`, monitor `omonitor`):
 
@@ -148,6 +149,10 @@ def engine : Engine DState where
       match d.scn with
       | none => (d, { model := "bad-op" })
       | some s => ({ d with end_ := parseEndObs impl }, { model := showEnd (run s).end_ })
+    | ["close"] =>
+      match d.scn with
+      | none => (d, { model := "bad-op" })
+      | some s => (d, { model := if deleteAtClose (run s) then "delete=1" else "delete=0" })
     | ["probe"] =>
       if let some os := d.oscn then
         match parseProbe impl with
